@@ -590,8 +590,8 @@ def r8(ctx):
     """the AES-GCM helpers are thin wrappers: the assumption 'decrypt_gcm raises for everything not sealed with this key, nonce
     and AAD' is about the library primitive, so the wrapper must not stand between the primitive's verdict and from_bytes"""
     from .common import thin_wrapper
-    thin_wrapper(ctx, "C01.R8", "crypto:decrypt_gcm", "decrypt", (1, 3, 2))     # AESGCM(key).decrypt(iv, data, aad)
-    thin_wrapper(ctx, "C01.R8", "crypto:encrypt_gcm", "encrypt", (1, 3, 2))
+    thin_wrapper(ctx, "C01.R8", "crypto:decrypt_gcm", "decrypt", (1, 3, 2), kw_names=("nonce", "data", "associated_data"))     # AESGCM(key).decrypt(iv, data, aad)
+    thin_wrapper(ctx, "C01.R8", "crypto:encrypt_gcm", "encrypt", (1, 3, 2), kw_names=("nonce", "data", "associated_data"))
     for q in ("crypto:decrypt_gcm", "crypto:encrypt_gcm"):
         fi = ctx.fn(q)
         k = [c for c in walk_own(fi.node) if isinstance(c, ast.Call) and norm(c.func) == "AESGCM"]
